@@ -100,42 +100,42 @@ theorem handleEvent_inv (cfg : Cfg) (cs : CState) (e : Event) (time idle : Bytes
 
 /-! ### whole histories -/
 
-theorem applyOuts_cs : ∀ (outs : List Out) (r : Run), (applyOuts r outs).1.cs = r.cs
+theorem applyOuts_cs (cfg : Cfg) (isURL : Bytes → Bool) : ∀ (outs : List Out) (r : Run), (applyOuts cfg isURL r outs).1.cs = r.cs
   | [], r => rfl
   | o :: rest, r => by
     cases o with
     | write e =>
-      have ih := applyOuts_cs rest { r with written := r.written ++ [e] }
+      have ih := applyOuts_cs cfg isURL rest { r with written := r.written ++ [e] }
       simp only [applyOuts]
       exact ih
     | send e =>
-      have ih := applyOuts_cs rest { r with written := r.written ++ [e] }
+      have ih := applyOuts_cs cfg isURL rest { r with written := r.written ++ sendPieces cfg isURL r.cs.st e }
       simp only [applyOuts]
       exact ih
     | inject e =>
-      have ih := applyOuts_cs rest r
+      have ih := applyOuts_cs cfg isURL rest r
       simp only [applyOuts]
       exact ih
     | close =>
-      have ih := applyOuts_cs rest r
+      have ih := applyOuts_cs cfg isURL rest r
       simp only [applyOuts]
       exact ih
 
-theorem stepEvent_inv (cfg : Cfg) (r : Run) (e : Event) (time idle : Bytes) (h : Inv r.cs.st) :
-    ∃ r' inj, stepEvent cfg r e time idle = .ok (r', inj) ∧ Inv r'.cs.st := by
+theorem stepEvent_inv (cfg : Cfg) (r : Run) (e : Event) (time idle : Bytes) (isURL : Bytes → Bool) (h : Inv r.cs.st) :
+    ∃ r' inj, stepEvent cfg r e time idle isURL = .ok (r', inj) ∧ Inv r'.cs.st := by
   unfold stepEvent
   obtain ⟨cs', outs, hc, hi⟩ := handleEvent_inv cfg r.cs e time idle h
   rw [hc, ok_bind]
   dsimp only
   refine ⟨_, _, rfl, ?_⟩
-  have ha : (applyOuts { r with cs := cs' } outs).1.cs = cs' := applyOuts_cs outs _
+  have ha : (applyOuts cfg isURL { r with cs := cs' } outs).1.cs = cs' := applyOuts_cs cfg isURL outs _
   split
-  · show Inv (applyOuts { r with cs := cs' } outs).1.cs.st
+  · show Inv (applyOuts cfg isURL { r with cs := cs' } outs).1.cs.st
     rw [ha]; exact hi
   · rw [ha]; exact hi
 
-theorem stepAll_inv (cfg : Cfg) : ∀ (fuel : Nat) (r : Run) (queue : List Event), Inv r.cs.st →
-    ∃ r', stepAll cfg fuel r queue = .ok r' ∧ Inv r'.cs.st
+theorem stepAll_inv (cfg : Cfg) (isURL : Bytes → Bool) : ∀ (fuel : Nat) (r : Run) (queue : List Event), Inv r.cs.st →
+    ∃ r', stepAll cfg isURL fuel r queue = .ok r' ∧ Inv r'.cs.st
   | 0, r, [], h => ⟨r, rfl, h⟩
   | 0, r, _ :: _, h => ⟨r, rfl, h⟩
   | _ + 1, r, [], h => ⟨r, rfl, h⟩
@@ -143,18 +143,18 @@ theorem stepAll_inv (cfg : Cfg) : ∀ (fuel : Nat) (r : Run) (queue : List Event
     unfold stepAll
     split
     · exact ⟨r, rfl, h⟩
-    · obtain ⟨r1, inj, hs, hi⟩ := stepEvent_inv cfg r e [] [] h
+    · obtain ⟨r1, inj, hs, hi⟩ := stepEvent_inv cfg r e [] [] isURL h
       rw [hs, ok_bind]
-      exact stepAll_inv cfg fuel r1 (queue ++ inj) hi
+      exact stepAll_inv cfg isURL fuel r1 (queue ++ inj) hi
 
-theorem stepLine_inv (cfg : Cfg) (r : Run) (line : Bytes) (h : Inv r.cs.st) :
-    ∃ r', stepLine cfg r line = .ok r' ∧ Inv r'.cs.st := by
+theorem stepLine_inv (cfg : Cfg) (r : Run) (line : Bytes) (isURL : Bytes → Bool) (h : Inv r.cs.st) :
+    ∃ r', stepLine cfg r line isURL = .ok r' ∧ Inv r'.cs.st := by
   unfold stepLine
   split
   · exact ⟨r, rfl, h⟩
   · split
     · exact ⟨_, rfl, h⟩
-    · exact stepAll_inv cfg 8 r _ h
+    · exact stepAll_inv cfg isURL 8 r _ h
 
 /-- Lifted over whole histories of received lines (parseable or not), including the events the
     client injects into its own queue. -/
@@ -164,7 +164,7 @@ theorem runLines_inv (cfg : Cfg) (r : Run) (lines : List Bytes) (h : Inv r.cs.st
   induction lines generalizing r with
   | nil => exact ⟨r, rfl, h⟩
   | cons line rest ih =>
-    obtain ⟨r1, h1, hi⟩ := stepLine_inv cfg r line h
+    obtain ⟨r1, h1, hi⟩ := stepLine_inv cfg r line (fun _ => true) h
     rw [List.foldlM_cons, h1, ok_bind]
     exact ih r1 hi
 
